@@ -17,7 +17,7 @@ RULE = ("executable programs over the harness native gate set (1-,2-,3-qubit, sy
 ASSUMPTIONS = ["harness native gate set and its matrices (vf/gateset_sig.py)", "reference executor vf/refexec.py",
                "programs rejected by the emulator with JaqalError are judged by C12/C13/C14, not here"]
 TIERS = {"quick": {"shards": 8, "budget_s": 70}, "thorough": {"shards": 16, "budget_s": 420}}
-REQUIRE = {"calls-of-stretched-variants": 500, "sections-with-a-repeated-prepare": 300, "busy-gates-with-unitary-inserted": 300, "keyword-calls-in-another-order": 500, "gate-set-variant:B": 100, "gate-set-variant:A": 100, "states-compared": 300, "gate:2q-asym": 50, "gate:3q": 20, "via-alias": 100, "via-macro": 50, "override-used": 30,
+REQUIRE = {"overrides-applied-after-macro-expansion:ML": 100, "overrides-applied-after-macro-expansion:PML": 100, "run-through-text-entry-point:string": 200, "run-through-text-entry-point:file": 200, "calls-of-stretched-variants": 500, "sections-with-a-repeated-prepare": 300, "busy-gates-with-unitary-inserted": 300, "keyword-calls-in-another-order": 500, "gate-set-variant:B": 100, "gate-set-variant:A": 100, "states-compared": 300, "gate:2q-asym": 50, "gate:3q": 20, "via-alias": 100, "via-macro": 50, "override-used": 30,
            "loop-in-section": 30, "probe:basis": 50, "probe:moved-alias": 100}
 ATOL = 1e-9
 
@@ -49,7 +49,25 @@ def judge(case):
             return "ok", [("api-rebuild-failed:" + oa[1], {"error": oa[2]})], info
         s.c, st_api = oa[1]
         info["api"] = st_api
-    o = X.run(s, ov, seed=case.get("npseed", 1))
+    if ov and case.get("order") == "ML":
+        # macros expanded while the lets are still symbolic; the overrides reach the expanded circuit
+        om = lib.outcome(lib.expand_macros, s.c)
+        if om[0] != "ok":
+            return "skipped:expand-macros-first-rejected", [], info
+        s.c = om[1]
+        info["order"] = "ML"
+    elif ov and case.get("order") == "PML" and case.get("api") is None:
+        # the parser does it: macros expanded, then lets substituted under the overrides; the result is run as it is
+        op = lib.outcome(lib.parse, s.text, X.native(variant), expand_macro=True, expand_let=True, override_dict=dict(ov))
+        if op[0] != "ok":
+            return "skipped:parser-options-rejected", [], info
+        s.c = op[1]
+        ov = None
+        info["order"] = "PML"
+    entry = case.get("entry") if (variant == "A" and not ov and case.get("api") is None and not info.get("order")) else None
+    if entry:
+        info["entry"] = entry
+    o = X.run(s, ov, seed=case.get("npseed", 1), entry=entry)
     if o[0] == "budget":
         return "skipped:step-budget", [], info
     if o[0] == "jaqal":
@@ -147,6 +165,10 @@ def process(ctx, case, seen):
     rec.count("unitary-evaluations-observed", info.get("events", 0))
     rec.count("n=%d" % info["n"])
     rec.count("gate-set-variant:" + case.get("variant", "A"))
+    if info.get("entry"):
+        rec.count("run-through-text-entry-point:" + info["entry"])
+    if info.get("order"):
+        rec.count("overrides-applied-after-macro-expansion:" + info["order"])
     if info.get("api"):
         rec.count("circuits-reassembled-from-core-objects")
         rec.count("keyword-calls-in-another-order", info["api"]["reordered"])
@@ -173,6 +195,8 @@ def process(ctx, case, seen):
             feats.add("override")
         if "api" in small_case:
             feats.add("statements-made-by-keyword-calls")
+        if small_case.get("entry"):
+            feats.add("run-through-" + small_case["entry"] + "-entry-point")
         rec.violation(sig("C03", clause, feats), d2[0][1] if d2 else detail, small_case)
 
 
@@ -310,6 +334,7 @@ def shard(ctx):
                 ov = make_override(rng, prog)
                 if ov:
                     case["ov"] = ov
+                    case["order"] = rng.choice(["LM", "ML", "PML"])
         case["npseed"] = rng.randrange(1 << 30)
         case["variant"] = "B" if rng.random() < 0.35 else "A"
         if case["variant"] == "A" and not case.get("probe") and rng.random() < 0.2:
@@ -319,6 +344,10 @@ def shard(ctx):
                 rec.count("calls-of-stretched-variants", ns)
         if rng.random() < 0.25:
             case["api"] = rng.randrange(1 << 30)
+        elif case["variant"] == "A" and not case.get("ov") and rng.random() < 0.3:
+            # the text-level entry points: the program names its gates (from vf.pulsemod usepulses *) and is run as a
+            # string or from a file
+            case["entry"] = rng.choice(["string", "file"])
         process(ctx, case, seen)
         if i <= 3:
             rec.sample({"ov": case.get("ov"), "text": sx.to_text(case["prog"])})
